@@ -12,6 +12,7 @@
 #include <string>
 #include "universe.h"
 #include "compl_oracle.h"
+#include "decode_free.h"
 using namespace VATA;
 #ifndef XRANKS
 #define XRANKS {}
@@ -24,7 +25,7 @@ using namespace VATA;
 #define ROUNDS 6
 #endif
 typedef U::SymAut<NS> SA;
-enum { MC = 1u << NS };            // Complement() numbers the macro-states (subsets of A's states) on the fly from 0
+enum { MC = 1u << NS };            // macro-states of the complement = subsets of A's states: at most 2^NS distinct states in the result
 #ifdef SMAP
 static const unsigned STATE_OF[NS] = SMAP;
 static unsigned stateOf(unsigned s) { return STATE_OF[s]; }
@@ -71,26 +72,38 @@ extern "C" void harness(void)
 
   ExplicitTreeAut cmpl = aut.Complement();
 
-  // ---- decode the result by iterating it: every rule must be a rule over the alphabet (symbol with its rank) and states < MC
+  // ---- decode the result by iterating it: every rule must be a rule over the alphabet (symbol with its rank).  The state
+  // numbers of the result are NOT interpreted (how Complement numbers its macro-states is not part of the contract): the
+  // distinct numbers are collected into a slot table (decode_free.h) and the tables of C are indexed by slot.  The only
+  // bound is the number of DISTINCT states, at most MC = 2^NS (a subset construction over NS states has no more).
   static CO::Tab<MC> C; C.clear(NAL, arank);
+  U::Slots<MC> slots;
   bool inAlphabet = true, inRange = true; unsigned long nrulesC = 0;
   for (const ExplicitTreeAut::Transition& t : cmpl) {
     ++nrulesC;
-    const unsigned long sym = t.GetSymbol(), par = t.GetParent(); const unsigned long n = t.GetChildren().size();
-    const unsigned long c0 = n > 0 ? t.GetChildren()[0] : 0, c1 = n > 1 ? t.GetChildren()[1] : 0;
+    const unsigned long sym = t.GetSymbol(); const unsigned long n = t.GetChildren().size();
+    bool hp[MC], h0[MC], h1[MC]; for (unsigned p = 0; p < MC; ++p) h0[p] = h1[p] = false;
+    slots.locate(t.GetParent(), hp);
+    if (n > 0) slots.locate(t.GetChildren()[0], h0);
+    if (n > 1) slots.locate(t.GetChildren()[1], h1);
     bool symOk = false;
     for (unsigned k = 0; k < NAL; ++k) { bool es = (sym == symnum[k]) & (n == arank[k]); symOk |= es;
-      for (unsigned p = 0; p < MC; ++p) { bool ep = es & (par == p);
+      for (unsigned p = 0; p < MC; ++p) { bool ep = es & hp[p];
         if (arank[k] == 0) C.r0[k][p] |= ep;
-        else if (arank[k] == 1) { for (unsigned c = 0; c < MC; ++c) C.r1[k][p][c] |= ep & (c0 == c); }
-        else if (MC <= 4) { for (unsigned c = 0; c < MC; ++c) for (unsigned d = 0; d < MC; ++d) C.r2[k][p][c % (MC <= 4 ? MC : 1)][d % (MC <= 4 ? MC : 1)] |= ep & (c0 == c) & (c1 == d); } } }
+        else if (arank[k] == 1) { for (unsigned c = 0; c < MC; ++c) C.r1[k][p][c] |= ep & h0[c]; }
+        else if (MC <= 4) { for (unsigned c = 0; c < MC; ++c) for (unsigned d = 0; d < MC; ++d) C.r2[k][p][c % (MC <= 4 ? MC : 1)][d % (MC <= 4 ? MC : 1)] |= ep & h0[c] & h1[d]; } } }
     inAlphabet &= symOk;
-    inRange &= (par < MC) & (c0 < MC) & (c1 < MC) & (n <= 2);
+    inRange &= (n <= 2);
   }
-  for (const auto& s : cmpl.GetFinalStates()) inRange &= (s < MC);
-  for (unsigned p = 0; p < MC; ++p) C.fin[p] = cmpl.IsStateFinal(p);
+  for (const auto& s : cmpl.GetFinalStates()) { bool hf[MC]; slots.locate(s, hf); for (unsigned p = 0; p < MC; ++p) C.fin[p] |= hf[p]; }
+  inRange &= slots.ok;
   CHECK(inAlphabet, 1);      // Complement(A) has no rule with a symbol outside S (or with a wrong rank): it accepts no such tree
-  CHECK(inRange, 2);         // decoding assumption: state numbers of the result are < 2^NS
+  CHECK(inRange, 2);         // decoding bound: the result has at most 2^NS distinct states (any numbering)
+#ifdef STRICT_IMPL   // never defined: implementation detail of the current Complement (macro-states numbered on the fly from 0)
+  { bool dense = true; for (const ExplicitTreeAut::Transition& t : cmpl) { dense &= t.GetParent() < MC; for (const auto& c : t.GetChildren()) dense &= c < MC; }
+    for (const auto& s : cmpl.GetFinalStates()) dense &= s < MC;
+    CHECK(dense, 2); }
+#endif
 
   // ---- the operand as rule tables (straight from the input bits)
   static CO::Tab<NS> T; T.clear(NAL, arank);
@@ -128,7 +141,8 @@ extern "C" void harness(void)
 #ifdef VS_OBSERVE
   // numbering of the macro-states depends on hash-table iteration over pointers: observe numbering-independent values only
   { unsigned used = 0; for (unsigned k = 0; k < NAL; ++k) for (unsigned p = 0; p < MC; ++p) { if (arank[k] == 0) used |= (unsigned)C.r0[k][p] << p; }
-    vs_observe(nrulesC); vs_observe(C.ruleCount()); vs_observe(fc); vs_observe(P.count()); vs_observe(P.disjoint(fa, fc)); vs_observe(P.covering(fa, fc)); vs_observe(used != 0); }
+    unsigned nfin = 0; for (unsigned p = 0; p < MC; ++p) nfin += (fc >> p) & 1;   // (slot indices follow the iteration order: only counts are observed)
+    vs_observe(nrulesC); vs_observe(C.ruleCount()); vs_observe(nfin); vs_observe(P.count()); vs_observe(P.disjoint(fa, fc)); vs_observe(P.covering(fa, fc)); vs_observe(used != 0); }
 #endif
 #ifdef VS_WITNESS
   vs_reach();
